@@ -368,6 +368,12 @@ pub fn dump_opened(container: &jbk::reader::Container, spec: &DumpSpec, out: &mu
 /// Compare a pristine dump with the dump of a damaged copy (the C05 oracle).
 /// Returns a list of human-readable differences that are NOT allowed.
 pub fn structural_diff(pristine: &Dump, damaged: &Dump) -> Vec<String> {
+    structural_diff_opts(pristine, damaged, false)
+}
+
+/// As `structural_diff`; with `missing_ok` a pack reported as missing (with its description)
+/// covers everything below it - for cases in which a pack file was taken away on purpose.
+pub fn structural_diff_opts(pristine: &Dump, damaged: &Dump, missing_ok: bool) -> Vec<String> {
     use std::collections::HashMap;
     let dmap: HashMap<&str, &Leaf> = damaged.0.iter().map(|(p, l)| (p.as_str(), l)).collect();
     let pmap: HashMap<&str, &Leaf> = pristine.0.iter().map(|(p, l)| (p.as_str(), l)).collect();
@@ -376,7 +382,7 @@ pub fn structural_diff(pristine: &Dump, damaged: &Dump) -> Vec<String> {
         let mut p = path;
         loop {
             if let Some(l) = map.get(p) {
-                if l.is_err() {
+                if l.is_err() || (missing_ok && matches!(l, Leaf::Missing(_))) {
                     return true;
                 }
             }
@@ -404,22 +410,26 @@ pub fn structural_diff(pristine: &Dump, damaged: &Dump) -> Vec<String> {
                 }
             }
             Some(dl) => {
-                if *dl == pl || dl.is_err() {
+                if *dl == pl || dl.is_err() || (missing_ok && matches!(dl, Leaf::Missing(_))) {
                     continue;
                 }
                 if let (Leaf::Bytes(..), Leaf::Bytes(..)) = (pl, dl) {
-                    // content bytes may differ only if an integrity check fails
+                    // content bytes may differ only if the integrity checks fail: the check of the
+                    // pack that holds the content and the check of the container
                     let pack_check = path
                         .find("/content[")
                         .map(|i| format!("{}/check", &path[..i]))
                         .unwrap_or_default();
-                    if check_not_true(&dmap, &pack_check) || check_not_true(&dmap, "check") {
+                    let pack_ok = check_not_true(&dmap, &pack_check);
+                    let container_ok = check_not_true(&dmap, "check");
+                    if pack_ok && container_ok {
                         continue;
                     }
                     diffs.push(format!(
-                        "{path}: content bytes differ ({} -> {}) while checks still pass",
+                        "{path}: content bytes differ ({} -> {}) while {} still answers true",
                         pl.short(),
-                        dl.short()
+                        dl.short(),
+                        if !pack_ok { "the pack's check" } else { "Container::check" }
                     ));
                     continue;
                 }
@@ -428,7 +438,7 @@ pub fn structural_diff(pristine: &Dump, damaged: &Dump) -> Vec<String> {
         }
     }
     for (path, dl) in &damaged.0 {
-        if pmap.contains_key(path.as_str()) || dl.is_err() || is_check(path) {
+        if pmap.contains_key(path.as_str()) || dl.is_err() || is_check(path) || (missing_ok && matches!(dl, Leaf::Missing(_))) {
             continue;
         }
         diffs.push(format!("{path}: new leaf {} not in the pristine dump", dl.short()));
